@@ -12,7 +12,9 @@ ID = 'C38'
 TECHNIQUE = ('table agreement between the compiler\'s name tables (Options.directive_types/_directive_defaults/directive_scopes, '
              'InterpretCompilerDirectives.special_methods/valid_cython_submodules/valid_parallel_directives, PyrexTypes basic type tables) '
              'and a statement-order model of the module namespace of Shadow.py (bindings, del, globals() stores evaluated over finite sets, '
-             'sys.modules registrations, attribute lookup through classes/instances/functions)')
+             'sys.modules registrations, attribute lookup through classes/instances/functions); exactness (float-taint) abstract interpretation of the '
+             'integer emulation functions of Shadow.py; decision table of AdjustDefByDirectives.visit_DefNode obtained by interpreting its code in the checker '
+             'over the complete domain of decorator combinations')
 DECIDES = ('necessary conditions for "a pure-mode module imports and runs under CPython exactly when it compiles": '
            '(DIR) every directive that the compiler accepts as decorator or with-item (a key of Options.directive_types or _directive_defaults whose '
            'directive_scopes entry is absent or names a non-module scope) resolves as an attribute path of the Shadow module, dotted names through '
@@ -22,8 +24,15 @@ DECIDES = ('necessary conditions for "a pure-mode module imports and runs under 
            '(SUBMOD) valid_cython_submodules and the sys.modules["cython.*"] registrations of Shadow agree in both directions; '
            '(SUBATTR) a registered submodule is also reachable as attribute `cython.<sub>` (the compiler accepts `import cython.<sub>; cython.<sub>.x`); '
            '(PAR) valid_parallel_directives = the __all__ of the object registered as cython.parallel and each is an attribute of it; '
-           '(COMPILED) Shadow.compiled is the constant False and the compiler replaces cython.compiled by a true BoolNode.')
-NOT_DECIDED = ('the values computed by cdiv/cmod/cast and the typedef call emulation (numeric, not structural); whether a Shadow binding has the right '
+           '(COMPILED) Shadow.compiled is the constant False and the compiler replaces cython.compiled by a true BoolNode. '
+           '(EXACT, sa/rules/sC38.py) the Shadow functions with an all-int signature (cdiv, cmod) return a value computed by integer-exact operations only: no true '
+           'division, float(), math.* or negative power feeds the return value, also not through int()/round() - a double has 53 bits, a C long long 63. '
+           '(EXC, sa/rules/sC38.py) for each of the 32 combinations {cfunc, ccall} x @exceptval x @returns x annotation_typing x return annotation, every path of '
+           'AdjustDefByDirectives.visit_DefNode that reaches as_cfunction passes: the explicit @exceptval value unchanged with has_explicit_exc_clause=True; '
+           'otherwise, when a C return type is passed (from @returns or from the annotation), an exception clause with check=True - so exceptions propagate out of '
+           'compiled pure-mode C functions as they do when interpreted.')
+NOT_DECIDED = ('the values computed by cdiv/cmod (that the exact integer arithmetic implements truncation: sign cases and rounding are numeric, not structural), '
+               'cast and the typedef call emulation; whether a Shadow binding has the right '
                'call shape (bare decorator vs decorator factory vs context manager); wrap-around of C integer arithmetic; program equivalence. '
                'Dotted special methods (cython.operator.*) and cython.view are compile-only by design and only enter through the SUBMOD exemptions.')
 ASSUMPTIONS = ['Shadow.py is executed top to bottom once; `if TYPE_CHECKING:` bodies do not run (typing.TYPE_CHECKING is False at run time)',
@@ -72,12 +81,32 @@ MUTATIONS = [
     (PTT, "visit_NameNode: BoolNode(node.pos, value=True) -> value=False", 'C38-COMPILED'),
     (SHADOW, "`dataclasses = sys.modules[...] = X` -> `sys.modules[...] = X` (attribute lost)", 'C38-SUBATTR'),
 ]
+MUTATIONS += [   # strengthening round (seeds C38a / C38b): all reported with exit 1
+    (SHADOW, "seed C38a: cdiv body -> `return int(a / b)`", 'C38-EXACT Shadow.cdiv:return'),
+    (SHADOW, "cmod body -> `import math; return int(math.fmod(a, b))`", 'C38-EXACT Shadow.cmod:return'),
+    (SHADOW, "cdiv: only the b < 0 branch -> `return -int(a / -b)`", 'C38-EXACT Shadow.cdiv:return'),
+    (SHADOW, "cdiv: `q = a * (1 / b); return round(q)` (float through a local)", 'C38-EXACT Shadow.cdiv:return'),
+    (SHADOW, "cdiv: `return a * b ** -1 // 1`", 'C38-EXACT Shadow.cdiv:return'),
+    (PTT, "seed C38b: backward-compatible default hoisted in front of the annotation branch", 'C38-EXC exc:cfunc:implicit-check, exc:ccall:implicit-check (--TA)'),
+    (PTT, "`(None, True if return_type_node else False)` -> `(None, False if return_type_node else True)`", 'C38-EXC exc:*:implicit-check (-R**)'),
+    (PTT, "annotation branch: `except_val = (None, True)` -> `(None, False)`", 'C38-EXC exc:*:implicit-check (--TA)'),
+    (PTT, "`has_explicit_exc_clause = False if except_val is None else True` inverted", 'C38-EXC exc:*:explicit-flag'),
+    (PTT, "ccall branch: drop `except_val=except_val` from the as_cfunction call", 'C38-EXC exc:ccall:explicit-value, exc:ccall:implicit-check'),
+    (PTT, "annotation branch test `return_type_node is not None` -> `is None`", 'C38-EXC exc:*:implicit-check (--TA, through the default (None, False) of as_cfunction)'),
+]
 PRESERVING = [
     # behaviour-preserving edits, all silent
     (SHADOW, "reorder the names inside the chained `nonecheck = cdivision = ...` assignment"),
     (SHADOW, "rename the lambda parameter of the chained directive lambda"),
     (SHADOW, "replace `cclass = cfunc = ccall = _EmptyDecoratorAndManager()` by three separate (aliasing) assignments"),
     (SHADOW, "turn `int_types` from a list into a tuple and reverse its rows"),
+    # strengthening round: C38-EXACT / C38-EXC silent
+    (SHADOW, "cmod rewritten with `q, rem = divmod(a, b)` and a sign test `(a < 0) != (b < 0)`"),
+    (SHADOW, "cdiv rewritten as `sign * (abs(a) // abs(b))`"),
+    (SHADOW, "cdiv: a float used only in a test (`if b / 1 < 0:`), the returned value stays integer"),
+    (PTT, "visit_DefNode: exception default restructured (`from_annotation` local, nested ifs, `bool(return_type_node)`)"),
+    (PTT, "`has_explicit_exc_clause = not (except_val is None)`"),
+    (PTT, "`except_val = (None, True)` for the backward-compatible default as well (an exception check is never wrong for the property)"),
     (SHADOW, "drop `overflowcheck.fold = ` from the chained attribute assignment (the class still has the method)"),
     (SHADOW, "move the static method `unused` of class warn into a new base class `_warn_base`"),
     (SHADOW, "register cython.parallel through a named instance `_par = CythonDotParallel()`"),
